@@ -3,6 +3,7 @@ import OhkamiModel.Drv.C03
 import OhkamiModel.Drv.C09
 import OhkamiModel.Drv.C12
 import OhkamiModel.Drv.C13
+import OhkamiModel.Drv.C17
 import OhkamiModel.Drv.C20
 /-! The one line-protocol driver: `driver <prop>` reads one JSON case per line on stdin, writes one JSON answer per line. -/
 open Lean
@@ -23,5 +24,6 @@ def main (args : List String) : IO UInt32 := do
   | ["C09"] => loop stdin DrvC09.runCase; return 0
   | ["C12"] => loop stdin DrvC12.runCase; return 0
   | ["C13"] => loop stdin DrvC13.runCase; return 0
+  | ["C17"] => loop stdin DrvC17.runCase; return 0
   | ["C20"] => loop stdin DrvC20.runCase; return 0
   | _ => IO.eprintln "usage: driver <property id>"; return 2
